@@ -1,5 +1,5 @@
 (* C14 -- Graphs returned by the parsers are closed and consistently linked. *)
-From Fences Require Import GraphSpec GraphLinks GraphOps GraphResolve GraphOptLinks Regex Grammar GrammarLinks RegexLinks.
+From Fences Require Import GraphSpec GraphLinks GraphOps GraphResolve GraphOptLinks Regex Grammar GrammarLinks RegexLinks Xml XmlLinks.
 
 (* add_transition keeps both directions in step: every graph built with the public API records
    each parent/child link on both ends with the right child index *)
@@ -89,3 +89,16 @@ Theorem C14_regex_output : forall fuel r st root,
     (forall i t, nth_error (outs_of (b_graph st) x) i = Some t -> In (x, i) (ins_of (b_graph st) t)).
 Proof. exact parse_regex_links. Qed.
 Print Assumptions C14_regex_output.
+
+(* The XSD front end, for every element tree and every sequence of numbers drawn at parse time: the handlers build a
+   table that is linked on both ends throughout; after resolve(), optimize() and the start / output nodes every node
+   reachable from the root of the graph parse_xml_schema returns passes both checks of check_consistency and is not a
+   Reference (every named type was resolved, or resolve() raised its documented exception). *)
+Theorem C14_xsd_output : forall fuel schema draws st root,
+  parse_xsd fuel schema draws = Ok (st, root) ->
+  forall x, reach (x_graph st) root x ->
+    ((forall s i, In (s, i) (ins_of (x_graph st) x) -> is_dec (x_graph st) s = true /\ nth_error (outs_of (x_graph st) s) i = Some x) /\
+     (forall i t, nth_error (outs_of (x_graph st) x) i = Some t -> In (x, i) (ins_of (x_graph st) t))) /\
+    is_ref (x_graph st) x = false.
+Proof. exact parse_xsd_links. Qed.
+Print Assumptions C14_xsd_output.
